@@ -319,7 +319,7 @@ func (f *Frame) applyContract(ct *Contract, fn *ssa.Function, sig *types.Signatu
 			f.frameCheck("*", "", pos, "call "+short)
 		}
 		for _, t := range targets {
-			f.frameCheckCond(t.heap, t.key, t.cond, pos, "call "+short)
+			f.frameCheckQ(t.heap, t.key, t.cond, t.qbind, pos, "call "+short)
 		}
 		f.applyHavoc(st, targets, all, f.curGuard)
 	} else {
@@ -345,6 +345,22 @@ func (f *Frame) applyContract(ct *Contract, fn *ssa.Function, sig *types.Signatu
 		if len(resVals) == 1 {
 			env.vars["result"] = v
 		}
+	}
+	// a pure in-repo function is a function of its arguments and the state it
+	// reads: the same uninterpreted function denotes it in specifications
+	if ct.Pure && ct.Kind == "func" && fn != nil && fn.Signature.Results().Len() == 1 && res.T != "" {
+		uf := "pure$" + mangle(short)
+		var srts, ts []string
+		for _, a := range args {
+			srts = append(srts, c.sortOf(a.Typ))
+			ts = append(ts, a.T)
+		}
+		for _, h := range c.W.pureReads(fn)(c) {
+			srts = append(srts, c.heapSort[h])
+			ts = append(ts, c.heapGet(pre, h, c.heapSort[h]))
+		}
+		c.declFun(uf, srts, c.sortOf(res.Typ))
+		c.assume(f.curGuard, eq(res.T, app(uf, ts...)))
 	}
 	env.cur, env.old = st, pre
 	for _, e := range ct.Ensures {
@@ -422,14 +438,14 @@ func (f *Frame) callTargets(x ssa.CallInstruction, outside func(ssa.Value) bool,
 			if len(cc.Args) > 0 {
 				if sl, ok := cc.Args[0].Type().Underlying().(*types.Slice); ok {
 					h, _ := c.memHeap(sl.Elem())
-					return []havocTarget{{h, "", ""}, {allocHeap, "", ""}}, false
+					return []havocTarget{{h, "", "", ""}, {allocHeap, "", "", ""}}, false
 				}
 			}
 			return nil, true
 		case "delete":
 			m := cc.Args[0].Type().Underlying().(*types.Map)
 			d, v := c.mapHeaps(m)
-			return []havocTarget{{d, "", ""}, {v, "", ""}}, false
+			return []havocTarget{{d, "", "", ""}, {v, "", "", ""}}, false
 		}
 		return nil, false
 	}
@@ -466,7 +482,7 @@ func (f *Frame) callTargets(x ssa.CallInstruction, outside func(ssa.Value) bool,
 	}
 	out := []havocTarget{}
 	if !ct.Pure {
-		out = append(out, havocTarget{allocHeap, "", ""})
+		out = append(out, havocTarget{allocHeap, "", "", ""})
 	}
 	// evaluate assigns with the arguments that are available outside the loop;
 	// the others are dummies, and a target whose key mentions a dummy covers
@@ -533,6 +549,10 @@ func (f *Frame) callTargets(x ssa.CallInstruction, outside func(ssa.Value) bool,
 			}
 		}
 		for _, t := range ts {
+			if t.qbind != "" {
+				// a location set inside a loop: the whole heap is havoc'd at the header
+				t.key, t.cond, t.qbind = "", "", ""
+			}
 			for _, d := range dummies {
 				if strings.Contains(t.key, d) || strings.Contains(t.cond, d) {
 					t.key = ""
@@ -573,48 +593,48 @@ func (f *Frame) bodyTargets(fn *ssa.Function, depth int) ([]havocTarget, bool) {
 					st := a.X.Type().Underlying().(*types.Pointer).Elem()
 					ft := st.Underlying().(*types.Struct).Field(a.Field).Type()
 					if isStruct(ft) {
-						c.structHeaps(ft, func(h string) { out = append(out, havocTarget{h, "", ""}) })
+						c.structHeaps(ft, func(h string) { out = append(out, havocTarget{h, "", "", ""}) })
 					} else {
 						h, _ := c.fieldHeap(st, a.Field)
-						out = append(out, havocTarget{h, "", ""})
+						out = append(out, havocTarget{h, "", "", ""})
 					}
 				case *ssa.IndexAddr:
 					switch u := a.X.Type().Underlying().(type) {
 					case *types.Slice:
 						h, _ := c.memHeap(u.Elem())
-						out = append(out, havocTarget{h, "", ""})
+						out = append(out, havocTarget{h, "", "", ""})
 					case *types.Pointer:
 						h, _ := c.memHeap(u.Elem().Underlying().(*types.Array).Elem())
-						out = append(out, havocTarget{h, "", ""})
+						out = append(out, havocTarget{h, "", "", ""})
 					}
 				default:
 					switch u := pt.Elem().Underlying().(type) {
 					case *types.Struct:
-						c.structHeaps(pt.Elem(), func(h string) { out = append(out, havocTarget{h, "", ""}) })
+						c.structHeaps(pt.Elem(), func(h string) { out = append(out, havocTarget{h, "", "", ""}) })
 					case *types.Array:
 						h, _ := c.memHeap(u.Elem())
-						out = append(out, havocTarget{h, "", ""})
+						out = append(out, havocTarget{h, "", "", ""})
 					default:
 						h, _ := c.cellHeap(pt.Elem())
-						out = append(out, havocTarget{h, "", ""})
+						out = append(out, havocTarget{h, "", "", ""})
 					}
 				}
 			case *ssa.MapUpdate:
 				d, v := c.mapHeaps(x.Map.Type().Underlying().(*types.Map))
-				out = append(out, havocTarget{d, "", ""}, havocTarget{v, "", ""})
+				out = append(out, havocTarget{d, "", "", ""}, havocTarget{v, "", "", ""})
 			case *ssa.Alloc, *ssa.MakeSlice, *ssa.MakeMap, *ssa.MakeClosure:
-				out = append(out, havocTarget{allocHeap, "", ""})
+				out = append(out, havocTarget{allocHeap, "", "", ""})
 				if a, ok := x.(*ssa.Alloc); ok {
 					et := a.Type().(*types.Pointer).Elem()
 					switch u := et.Underlying().(type) {
 					case *types.Struct:
-						c.structHeaps(et, func(h string) { out = append(out, havocTarget{h, "", ""}) })
+						c.structHeaps(et, func(h string) { out = append(out, havocTarget{h, "", "", ""}) })
 					case *types.Array:
 						h, _ := c.memHeap(u.Elem())
-						out = append(out, havocTarget{h, "", ""})
+						out = append(out, havocTarget{h, "", "", ""})
 					default:
 						h, _ := c.cellHeap(et)
-						out = append(out, havocTarget{h, "", ""})
+						out = append(out, havocTarget{h, "", "", ""})
 					}
 				}
 			case ssa.CallInstruction:
@@ -774,7 +794,7 @@ func (f *Frame) doAppend(cc *ssa.CallCommon, args []Val, rt types.Type, st *Stat
 		}
 		ra := c.fresh("apparr")
 		c.declConst(ra, arrSort)
-		c.assume(f.curGuard, fmt.Sprintf("(forall ((i!q %s)) (! (=> %s (= (select %s i!q) (select %s %s))) :pattern ((select %s i!q))))", idx, and(c.ile(c.idxLit(0), "i!q"), c.ilt("i!q", sLen)), q(ra), oldArr, c.iadd(sOff, "i!q"), q(ra)))
+		c.assume(f.curGuard, fmt.Sprintf("(forall ((i!q %s)) (! (=> %s (= (select %s i!q) (select %s %s))) :pattern ((select %s i!q))))", idx, and(c.ile(c.idxLit(0), "i!q"), c.ilt("i!q", sLen)), q(ra), oldArr, c.eidx(sOff, "i!q"), q(ra)))
 		realloc = q(ra)
 		for i, e := range elems {
 			realloc = "(store " + realloc + " " + c.iadd(sLen, c.idxLit(int64(i))) + " " + e + ")"
@@ -788,7 +808,7 @@ func (f *Frame) doAppend(cc *ssa.CallCommon, args []Val, rt types.Type, st *Stat
 		inplace = q(ia)
 		ra := c.fresh("apparr")
 		c.declConst(ra, arrSort)
-		c.assume(f.curGuard, fmt.Sprintf("(forall ((i!q %s)) (! (=> %s (= (select %s i!q) (ite %s (select %s %s) %s))) :pattern ((select %s i!q))))", idx, and(c.ile(c.idxLit(0), "i!q"), c.ilt("i!q", newLen)), q(ra), c.ilt("i!q", sLen), oldArr, c.iadd(sOff, "i!q"), srcAt(c.isub("i!q", sLen)), q(ra)))
+		c.assume(f.curGuard, fmt.Sprintf("(forall ((i!q %s)) (! (=> %s (= (select %s i!q) (ite %s (select %s %s) %s))) :pattern ((select %s i!q))))", idx, and(c.ile(c.idxLit(0), "i!q"), c.ilt("i!q", newLen)), q(ra), c.ilt("i!q", sLen), oldArr, c.eidx(sOff, "i!q"), srcAt(c.isub("i!q", sLen)), q(ra)))
 		realloc = q(ra)
 	}
 	if c.frameOn && !c.frameWhole[h] && c.suppress == 0 {
